@@ -370,6 +370,7 @@ pub fn write_replay(scn: &dyn Scenario, tier: Tier, seed: u64, index: u64, origi
         .with("property", J::s(scn.property()))
         .with("scenario", J::s(scn.name()))
         .with("tier", J::s(tier.name()))
+        .with("build_profile", J::s(if cfg!(debug_assertions) { "checked" } else { "plain" }))
         .with("seed", J::u(seed))
         .with("run", J::u(index))
         .with("class", J::s(v.class.clone()))
